@@ -344,16 +344,19 @@ def condition(X):
     return max(loc, 1.0) * c, loc, c
 
 
-K_MAX = 1e8
+TOL_TARGET = 1e-5  # translations are limited so that the per-iteration tolerance of a pair stays below this where the data allow it
 
 
-def fit_budget(g, X):
-    """Translations are shrunk (halved in log-magnitude steps of 10) until the image data keep enough significant bits of
-    their own spread: K(g(X)) <= K_MAX.  Returns the map actually used and K of the pair."""
+def fit_budget(g, X, numax=1.0):
+    """Translations are shrunk (by factors of 10) until the image data keep enough significant bits of their own spread:
+    C_ITER*eps*K(g(X))*max(1, nu_max) <= TOL_TARGET (or K(g(X)) <= 4 K(X) when X itself is worse than that).
+    Returns the map actually used and K of the pair."""
     KA = condition(X)[0]
-    for _ in range(12):
+    kmax = TOL_TARGET / (C_ITER * EPS * max(1.0, numax))
+    KB = KA
+    for _ in range(14):
         KB = condition(apply_map(g, X))[0]
-        if KB <= max(K_MAX, 4 * KA) or not np.any(g["t"]):
+        if KB <= max(kmax, 4 * KA) or not np.any(g["t"]):
             break
         g = dict(g, t=g["t"] / 10.0)
     return g, max(KA, KB)
@@ -404,9 +407,26 @@ def err_nu(a, b):
 # ----------------------------------------------------------------------------------------------------------------
 # single-run well-posedness predicates
 # ----------------------------------------------------------------------------------------------------------------
+def is_pd(S):
+    """Cholesky of S succeeds (what ModeStatistics does) and the smallest eigenvalue of the diagonally equilibrated matrix
+    D^-1/2 S D^-1/2 is > 0 (positive definiteness is invariant under that congruence; on the raw matrix eigvalsh's absolute
+    error eps*||S|| would swamp the small eigenvalues of a matrix whose coordinates have scales 1e-6 .. 1e6)."""
+    S = np.asarray(S, dtype=float)
+    if not np.all(np.isfinite(S)) or not np.all(np.diag(S) > 0):
+        return False
+    try:
+        np.linalg.cholesky(S)
+    except np.linalg.LinAlgError:
+        return False
+    sd = np.sqrt(np.diag(S))
+    Cn = S / np.outer(sd, sd)
+    return bool(np.linalg.eigvalsh((Cn + Cn.T) / 2).min() > 0)
+
+
 def well_posed(X, res):
     """Clauses of the first sentence of C19 on a returned (mu, Sigma, nu).
-    'inside the bounding box' is asked with the slack a weighted mean of n doubles needs:
+    'symmetric' is asked up to the rounding of the scatter sum: |S_ij - S_ji| <= 4 n eps sqrt(S_ii S_jj)  (np.dot(w*d, d.T)
+    rounds (w d_i) d_j and (w d_j) d_i differently).  'inside the bounding box' is asked with the slack a weighted mean of n doubles needs:
         min_j - n*eps*max|x_j|  <=  mu_j  <=  max_j + n*eps*max|x_j|   (the median and any convex combination computed in
     double arithmetic satisfy it; one part in 1e13 of the data's magnitude for n = 300)."""
     n, d = X.shape
@@ -418,15 +438,8 @@ def well_posed(X, res):
     slack = n * EPS * np.max(np.abs(X), axis=0)
     out["MuInBox"] = bool(out["MuFinite"] and np.all(mu >= X.min(axis=0) - slack) and np.all(mu <= X.max(axis=0) + slack))
     fin = bool(S.shape == (d, d) and np.all(np.isfinite(S)))
-    out["SigmaSymmetric"] = bool(fin and np.all(np.abs(S - S.T) <= 4 * EPS * np.sqrt(np.abs(np.outer(np.diag(S), np.diag(S))))))
-    pd = False
-    if fin:
-        try:
-            np.linalg.cholesky(S)
-            pd = bool(np.linalg.eigvalsh((S + S.T) / 2).min() > 0)
-        except np.linalg.LinAlgError:
-            pd = False
-    out["SigmaPD"] = pd
+    out["SigmaSymmetric"] = bool(fin and np.all(np.abs(S - S.T) <= 4 * n * EPS * np.sqrt(np.abs(np.outer(np.diag(S), np.diag(S))))))
+    out["SigmaPD"] = bool(fin and is_pd(S))
     out["NuRange"] = bool(nu is not None and not math.isnan(nu) and nu > 0)
     return out
 
@@ -524,13 +537,7 @@ def project_pair(g, X, Y, A, B):
 
     def init_rec(run, is_b):
         S0, mu0 = run["Sigma0"], run["mu0"]
-        pd = False
-        if S0 is not None and np.all(np.isfinite(S0)):
-            try:
-                np.linalg.cholesky(S0)
-                pd = bool(np.linalg.eigvalsh((S0 + S0.T) / 2).min() > 0)
-            except np.linalg.LinAlgError:
-                pd = False
+        pd = bool(S0 is not None and is_pd(S0))
         rec = {"mu": 0, "sig": 0, "pd": pd, "fin": bool(mu0 is not None and np.all(np.isfinite(mu0)))}
         if is_b:
             rec["mu"] = tag(err_mu(g, A["mu0"], B["mu0"], B["Sigma0"]), tol["init"], "mu0")
@@ -613,11 +620,13 @@ def observe_modes(modes_mod, student_mod, u, w, labels=None, n_modes=None, fallb
                 run = observe_fit(student_mod, data, fit=real_fit)
             except ObservationError:
                 raise
+        rec = {"data": data, "out": None, "run": run}
+        fits.append(rec)
         if run is not None and run["res"]["raised"] is None:  # observe_fit has shown this to be bit-identical to the plain call
             out = (run["res"]["mu"].copy(), run["res"]["Sigma"].copy(), run["res"]["nu"])
         else:
             out = real_fit(np.array(data, copy=True), *a, **kw)
-        fits.append({"data": data, "out": (np.array(out[0], dtype=float, copy=True), np.array(out[1], dtype=float, copy=True), float(out[2])), "run": run})
+        rec["out"] = (np.array(out[0], dtype=float, copy=True), np.array(out[1], dtype=float, copy=True), float(out[2]))
         return out
 
     def choice(a, size=None, replace=True, p=None):
@@ -649,6 +658,11 @@ def observe_modes(modes_mod, student_mod, u, w, labels=None, n_modes=None, fallb
     return {"ms": ms, "raised": raised, "fits": fits, "choices": choices}
 
 
+def thin_support(obs, d):
+    """some fit inside the construction received fewer than 4d DISTINCT rows (outside the property's quantifier)"""
+    return any(len(np.unique(f["data"], axis=0)) < 4 * d for f in obs["fits"])
+
+
 def project_modes(obs, u, w, labels, n_modes, fallback):
     """-> the "m" record of a StudentPair.tla "modes" item."""
     ms = obs["ms"]
@@ -669,6 +683,8 @@ def project_modes(obs, u, w, labels, n_modes, fallback):
     wn = np.asarray(w, dtype=float)
     for j in range(min(K, ms.means.shape[0], len(obs["fits"]))):
         f = obs["fits"][j]
+        if f["out"] is None:
+            continue
         mean, cov, raw = f["out"]
         stored = float(ms.degrees_of_freedom[j])
         C = np.asarray(ms.covariances[j], dtype=float)
